@@ -42,6 +42,10 @@ type CaseIn struct {
 	// re-run of a case that looked wrong (real timers are no part of the model: the outcome of a
 	// run must not depend on the factor, only its duration when the device is silent)
 	TScale int `json:"tscale,omitempty"`
+	// directory of the run, created and removed by the PARENT of the worker (never part of a replay
+	// file): the simulators journal there what the device received, so that it can be judged also
+	// when the code under test ends or blocks the worker process
+	Work string `json:"work,omitempty"`
 }
 
 type CaseOut struct {
@@ -118,11 +122,15 @@ func runCase(c CaseIn) CaseOut {
 	if accident == "ptmx" {
 		return CaseOut{Exit: 1, Stderr: "ERROR>>> open /dev/ptmx: no space left on device\n", FaultAt: -1, WallMs: 1}
 	}
-	work, err := os.MkdirTemp("", "c11case")
-	if err != nil {
-		panic(err)
+	work := c.Work
+	if work == "" {
+		var err error
+		work, err = os.MkdirTemp("", "c11case")
+		if err != nil {
+			panic(err)
+		}
+		defer os.RemoveAll(work)
 	}
-	defer os.RemoveAll(work)
 	prevDir, _ := os.Getwd()
 	defer os.Chdir(prevDir)
 	os.Chdir(work)
@@ -164,7 +172,7 @@ func runCase(c CaseIn) CaseOut {
 	os.Mkdir(simDir, 0755)
 	var hs *httpSim
 	if c.Scen.HTTP != nil {
-		hs = newHTTPSim(c.Scen.Backend, c.Scen.HTTP, c.FaultPos, c.FaultKind)
+		hs = newHTTPSim(c.Scen.Backend, c.Scen.HTTP, c.FaultPos, c.FaultKind, simDir)
 		os.Setenv("SIMULATE_ROUTER", hs.srv.URL)
 	} else {
 		cfg := simCfg{Backend: c.Scen.Backend, Config: configLines(c.Scen), Name: devName, Preamble: c.Scen.Preamble,
@@ -222,19 +230,62 @@ func runCase(c CaseIn) CaseOut {
 			out.Hash1 = st.hash()
 		}
 	}
+	readLogs(c, work, &out)
+	if hs != nil {
+		out.Log = strings.ReplaceAll(out.Log, hs.srv.URL, "TESTSERVER")
+	}
+	out.WallMs = time.Since(start).Milliseconds()
+	return out
+}
+
+// readLogs: what the run left in its directory besides the device's transcript
+func readLogs(c CaseIn, work string, out *CaseOut) {
+	logDir := filepath.Join(work, "policies", "p1", "log")
+	logFile := filepath.Join(logDir, devName+".compare")
+	if c.Tool == "drc" || c.Tool == "drc-nolog" {
+		logFile = filepath.Join(work, "drc.log")
+	}
 	rd := func(p string) string { b, _ := os.ReadFile(p); return string(b) }
 	out.Log = strings.ReplaceAll(rd(logFile), work+"/", "")
 	out.CmpLog = rd(filepath.Join(logDir, devName+".cmp"))
 	if _, err := os.Stat(filepath.Join(logDir, devName+".change")); err == nil {
 		out.Change = true
 	}
-	if hs != nil {
-		out.Log = strings.ReplaceAll(out.Log, hs.srv.URL, "TESTSERVER")
-	}
 	out.Stderr = strings.ReplaceAll(out.Stderr, work+"/", "")
 	all := out.Log + out.Stdout + out.Stderr
 	out.Scp = strings.Contains(all, "Executing scp") || strings.Contains(all, ":/etc/network/")
-	out.WallMs = time.Since(start).Milliseconds()
+}
+
+// recoverOutcome: the worker process ended or blocked while it ran the case (the code under test
+// called os.Exit, crashed the runtime, hangs): what the DEVICE received is in the journal of the
+// simulator in the run's directory — judge that.
+func recoverOutcome(c CaseIn, work, why string) CaseOut {
+	out := CaseOut{Exit: 2, Panic: why, FaultAt: -1}
+	if work == "" {
+		return out
+	}
+	tp := filepath.Join(work, "sim", "transcript")
+	if c.Scen.HTTP == nil {
+		// the console simulator ends when its pty is closed: wait for its end mark
+		os.WriteFile(filepath.Join(work, "sim", "stop"), nil, 0644)
+		for i := 0; i < 300; i++ {
+			if b, err := os.ReadFile(tp); err == nil && bytes.Contains(b, []byte("\nX ")) {
+				break
+			}
+			time.Sleep(10 * time.Millisecond)
+		}
+	}
+	out.Lines, out.Kinds, out.FaultAt, out.Hash0, out.Hash1 = readTranscript(tp)
+	if out.Hash1 == "" && c.Scen.HTTP == nil && out.Hash0 != "" {
+		st := newDevState(c.Scen.Backend, configLines(c.Scen))
+		for i, l := range out.Lines {
+			if out.Kinds[i] != "answer" {
+				st.applyLine(l)
+			}
+		}
+		out.Hash1 = st.hash()
+	}
+	readLogs(c, work, &out)
 	return out
 }
 
